@@ -46,7 +46,7 @@ Proof.
 Qed.
 
 (* ------------------------------------------------------------------ (c) and (d) on the view *)
-From LC Require Import Proofs.C02cP Proofs.C02dP.
+From LC Require Import Proofs.C02cP Proofs.C02dP Proofs.C02eP.
 
 Definition paths_distinct (w : wobs) : bool := nodup_paths (map fst (wo_fs w)).
 
@@ -76,16 +76,30 @@ Proof.
   destruct (run_command e cfg um (CRebase a b0) (start w)) as [[r| | | |] s']; try reflexivity. exact H.
 Qed.
 
-(* all conjuncts together, for every command but rename (whose rename_exact conjunct is not proved) *)
-Definition not_rename (cmd : command) : bool := match cmd with CRename _ _ => false | _ => true end.
+Theorem rename_exact_view cfg w e cmd um :
+  cfg_ok cfg = true -> fs_ok cfg (wo_fs w) = true -> paths_distinct w = true ->
+  no_stale_tmp cfg (wo_fs w) cmd = true -> e_pretend e = false ->
+  let v := view_of_model cfg w e cmd um in
+  match v_cmd v, v_res v with
+  | CRename a n, ROk => C02.rename_exact cfg (wo_fs w) (wo_fs (v_after v)) a n
+  | _, _ => true
+  end = true.
+Proof.
+  intros Hcfg Hfs Hnd Hst Hnp v. subst v. rewrite view_model_eq. cbv zeta. cbn [v_cmd v_res v_after wo_fs].
+  destruct cmd; try reflexivity.
+  pose proof (rename_exact_run e cfg um a b0 (start w) Hcfg Hfs Hnd Hst Hnp) as H.
+  destruct (run_command e cfg um (CRename a b0) (start w)) as [[r| | | |] s']; try reflexivity. exact H.
+Qed.
+
+(* all four conjuncts of step_spec together *)
 Theorem step_spec_view cfg w e cmd um :
   cfg_ok cfg = true -> fs_ok cfg (wo_fs w) = true -> kernel_wf w = true -> names_distinct cfg w = true ->
   paths_distinct w = true -> no_stale_tmp cfg (wo_fs w) cmd = true ->
-  C02.forest_ok cfg (wo_fs w) = true -> not_rename cmd = true ->
+  C02.forest_ok cfg (wo_fs w) = true ->
   in_scope e cmd (v_res (view_of_model cfg w e cmd um)) = true ->
   C02.step_spec cfg w (view_of_model cfg w e cmd um) = true.
 Proof.
-  intros Hcfg Hfs Hk Hnd Hpd Hst HF Hnr Hsc. unfold C02.step_spec.
+  intros Hcfg Hfs Hk Hnd Hpd Hst HF Hsc. unfold C02.step_spec.
   pose proof (no_diverge cfg w e cmd um HF Hk Hnd) as H1.
   pose proof (forest_preserved_view cfg w e cmd um Hcfg Hfs Hnd Hsc) as H2.
   pose proof (breaking_refused_view cfg w e cmd um Hk) as H3. cbv zeta in H2, H3.
@@ -94,8 +108,9 @@ Proof.
   rewrite Ee. destruct (e_pretend e) eqn:Hp; [reflexivity|]. cbn [negb andb].
   destruct (e_fault e); [|reflexivity|reflexivity]. cbn [negb orb].
   pose proof (rebase_exact_view cfg w e cmd um Hcfg Hfs Hpd Hst Hp) as H4. cbv zeta in H4.
+  pose proof (rename_exact_view cfg w e cmd um Hcfg Hfs Hpd Hst Hp) as H5. cbv zeta in H5.
   assert (Ec : v_cmd (view_of_model cfg w e cmd um) = cmd) by (rewrite view_model_eq; reflexivity).
-  rewrite Ec in *. destruct cmd; try reflexivity; try discriminate. exact H4.
+  rewrite Ec in *. destruct cmd; try reflexivity; [exact H5|exact H4].
 Qed.
 
 Lemma frame_both : forall c f f',
